@@ -380,6 +380,10 @@ func registerStd(e *Engine, simple func(string, func(*Run, []Value) Value)) {
 	redirect("time.After", "AfterModel")
 	redirect("time.NewTimer", "NewTimerModel")
 	redirect(rtPkg+".Quiesce", "QuiesceModel")
+	in[rtPkg+".QuiesceFor"] = func(r *Run, g *Goroutine, fv *FuncV, a []Value, retTo func(Value)) (Value, bool) {
+		r.invoke(g, &FuncV{fn: r.eng.pkgs[rtPkg].Func("QuiesceModel")}, nil, retTo)
+		return deferredResult{}, true
+	}
 	simple("(*time.Timer).Stop", func(r *Run, a []Value) Value { return r.ctx.Bool(false) })
 	in[rtPkg+".EngineAfter"] = func(r *Run, g *Goroutine, fv *FuncV, a []Value, retTo func(Value)) (Value, bool) {
 		d := r.concreteInt(a[0], "timer duration")
